@@ -161,6 +161,8 @@ pub struct NodeCtx {
     /// per member: (known heartbeat, number of fresh values reported to the failure detector,
     /// time of the last one) — a harness-side log, independent of the implementation
     pub hbtrack: BTreeMap<ChitchatId, (u64, u64, u64)>,
+    /// per member: intervals between consecutive fresh reports since the last evaluation that found it dead
+    pub streak: BTreeMap<ChitchatId, Vec<u64>>,
     pub watch_rx: watch::Receiver<BTreeMap<ChitchatId, NodeState>>,
     _seeds_tx: watch::Sender<HashSet<std::net::SocketAddr>>,
 }
@@ -806,6 +808,9 @@ impl Exec {
             e.0 = hb;
         } else if hb > e.0 {
             e.0 = hb;
+            if e.1 >= 1 {
+                ctx.streak.entry(id.clone()).or_default().push(now - e.2);
+            }
             e.1 += 1;
             e.2 = now;
         }
@@ -818,6 +823,7 @@ impl Exec {
         let present: BTreeMap<ChitchatId, u64> =
             ctx.cc.node_states().iter().map(|(id, ns)| (id.clone(), u64::from(ns.heartbeat()))).collect();
         ctx.hbtrack.retain(|id, _| present.contains_key(id));
+        ctx.streak.retain(|id, _| present.contains_key(id));
     }
 
     /// C10 / C11 / C12 stated directly on the implementation after a liveness evaluation.
@@ -842,6 +848,18 @@ impl Exec {
             if live.contains(id) && *reports < 2 {
                 hits.push(("C11", format!("member {:?} is live after only {} fresh heartbeat report(s)", id.node_id, reports)));
                 hits.push(("C10", format!("member {:?} is live after only {} fresh heartbeat report(s)", id.node_id, reports)));
+            }
+            // C11: steady fresh heartbeats are never flagged
+            if let Some(ivs) = ctx.streak.get(id) {
+                if !ivs.is_empty() && *reports >= 2 {
+                    let a = *ivs.iter().min().unwrap();
+                    let b = (*ivs.iter().max().unwrap()).max(now - last);
+                    if b <= maxi && (num as u128) * (a.min(init) as u128) >= (b as u128) * (den as u128) && !live.contains(id) {
+                        hits.push(("C11", format!(
+                            "member {:?}: fresh heartbeats at intervals within [{a}, {b}] ticks (max_interval {maxi}, initial {init}, threshold {num}/{den}) but it is not reported live",
+                            id.node_id)));
+                    }
+                }
             }
             if *reports >= 1 {
                 let silent = (now - last) as u128 * den as u128;
@@ -879,8 +897,14 @@ impl Exec {
                     expect.iter().map(|(i, v)| (i.node_id.clone(), *v)).collect::<Vec<_>>())));
             }
         }
+        let dead_now: Vec<ChitchatId> = dead.iter().cloned().collect();
         for (p, d) in hits {
             self.monitor_hit(p, "liveness", &d);
+        }
+        if let Some(ctx) = self.nodes.get_mut(&slot) {
+            for id in dead_now {
+                ctx.streak.remove(&id);
+            }
         }
     }
 
@@ -1062,7 +1086,7 @@ impl Exec {
                 // initial key-values fired no listener (none was subscribed yet); the model reports
                 // them, so reconstruct them from the state for comparison.
                 let init_events: Vec<(ChitchatId, String, String)> = Vec::new();
-                let ctx = NodeCtx { calls: Arc::new(Mutex::new(Vec::new())), handles: BTreeMap::new(), active: BTreeMap::new(), refmap: RefMap::default(), grace, cc, id: id.clone(), events, callbacks, publishes: 0, fd_params: Some((f[0].nat()?, f[1].nat()?, f[4].nat()?)), max_interval: f[3].nat()?, pred: pred_spec.clone(), hbtrack: BTreeMap::new(), watch_rx, _seeds_tx: seeds_tx };
+                let ctx = NodeCtx { calls: Arc::new(Mutex::new(Vec::new())), handles: BTreeMap::new(), active: BTreeMap::new(), refmap: RefMap::default(), grace, cc, id: id.clone(), events, callbacks, publishes: 0, fd_params: Some((f[0].nat()?, f[1].nat()?, f[4].nat()?)), max_interval: f[3].nat()?, pred: pred_spec.clone(), hbtrack: BTreeMap::new(), streak: BTreeMap::new(), watch_rx, _seeds_tx: seeds_tx };
                 self.nodes.insert(slot, ctx);
                 self.resync_ref(slot);
                 self.extend_ledger(slot);
@@ -1156,6 +1180,7 @@ impl Exec {
                 self.nodes.get(&slot)?.calls.lock().unwrap().clear();
                 if let Some(ctx) = self.nodes.get_mut(&slot) {
                     ctx.hbtrack.insert(id.clone(), (copy.heartbeat, 0, 0));
+                    ctx.streak.remove(&id);
                 }
                 if self.nodes.get(&slot).map(|c| c.id == id).unwrap_or(false) {
                     self.ledger.insert(id.clone(), None);
